@@ -50,6 +50,7 @@ PROOFS = [
     Proof('lemma/exclusion', 'rw.c', 'lemma_rw_exclusion', kind='L', min_obligations=1, backend='cadical'),
 ]
 NATIVES = []
+AUX_VIOLATION = True    # no native oracle: a failing loop-rule obligation is reported (no-failing-input-found), see DESIGN §4
 TRUSTED = ['cbmc 6.11.0', 'lowering rules of specs/C06/spec.py']
 NOT_DECIDED = ['admission after the last unlock as a liveness property (wake-up delivery)', 'timeouts racing with admission across context switches',
                'memory ordering (atomics modelled sequentially consistent)', 'the shared-lock instantiation of qrwlock::do_lock (same template text, unique instantiation proved)']
